@@ -358,10 +358,9 @@ impl DOPRI5 {
             if err <= 1.0 {
                 // Step accepted
                 facold = err.max(1.0e-4);
-                steps.accepted += 1;
 
-                // Stiffness detection
-                if (steps.accepted % nstiff == 0) || (iasti > 0) {
+                // Stiffness detection (a step on which it gives up is neither counted nor reported)
+                if ((steps.accepted + 1) % nstiff == 0) || (iasti > 0) {
                     let mut stnum = 0.0_f64;
                     let mut stden = 0.0_f64;
                     for i in 0..n {
@@ -389,6 +388,8 @@ impl DOPRI5 {
                         }
                     }
                 }
+
+                steps.accepted += 1;
 
                 // Prepare dense output
                 if self.dense_output || event {
